@@ -78,6 +78,20 @@ OPS = ("add_r", "rm_r", "add_w", "rm_w", "rm_close", "send", "fin", "drain", "sl
 RACTS = ("all", "some", "rm", "rereg", "rmclose", "closesel", "addw", "raise")
 WACTS = ("fill", "once", "rereg", "rmclose", "closesel", "raise")
 FINALS = ("sel_close", "loop_first")
+# rare conditions that matter (reported even when zero)
+PROBES = (
+    "reg_change_before_thread_start", "reg_change_during_select",
+    "reg_change_while_selector_waits_on_cond", "reg_change_while_selector_between_steps",
+    "reg_change_after_thread_exit",
+    "close_before_thread_start", "close_during_select", "close_while_selector_waits_on_cond",
+    "close_while_selector_between_steps", "close_after_thread_exit", "close_in_callback",
+    "close_via_asyncgens", "closed_without_start", "asyncgens_before_thread_manager_started",
+    "dispatch_after_close", "post_on_closed_loop",
+    "ebadf_raised", "ebadf_fallback_select", "fd_closed_with_selector_alive",
+    "waker_full", "multi_ready", "notify_woke_waiter", "cv_spurious_wakeup",
+    "rereg_in_callback", "rmclose_in_callback", "callback_raised", "eof_seen",
+    "writer_dispatch", "writer_window_full",
+)
 
 
 # ----------------------------------------------------------------------------
@@ -273,6 +287,8 @@ def _child(scn, full_log, result):
             bad("callback.exception_not_reported", f"{W.raised} workload callbacks raised but the "
                 f"loop's exception handler saw {n_raised}")
         st = env.stats()
+        for name in PROBES:
+            st["probes"].setdefault(name, 0)
         st["probes"].update(probes)
         st["probes"]["thread_switches"] = sched.switches
         st["probes"]["sched_choices"] = sched.choices
@@ -321,6 +337,8 @@ def _child(scn, full_log, result):
         elif kind == "cv.notify":
             if arg:
                 probe("notify_woke_waiter")
+        elif kind == "cv.spurious":
+            probe("cv_spurious_wakeup")
 
     def on_post(cb):
         if sched.cur.idx == 0:
@@ -339,8 +357,6 @@ def _child(scn, full_log, result):
 
     loop.on_post = on_post
     loop.on_post_failed = on_post_failed
-
-    cvsp = {"cv": None}
 
     def spurious():
         return bool(env.tapes.draw("cvsp"))
@@ -656,6 +672,8 @@ def _child(scn, full_log, result):
                     if f.closed:
                         continue
                     ctx = "/after_callback_exception" if W.raised else ""
+                    if any(t.exc is not None for t in sched.threads):
+                        ctx += "/after_selector_thread_died"
                     if f.i in W.readers and f.sock.readable():
                         bad("lost_event.read", f"quiescent, but fd#{f.i} is registered for reading "
                             f"and readable ({len(f.sock.rx.rbuf)} bytes buffered, fin="
